@@ -32,9 +32,13 @@ Definition psth_eqb (a b : psth) : bool :=
   (p_version a =? p_version b) && (p_size a =? p_size b) && (p_time a =? p_time b)
   && bytes_eqb (p_root a) (p_root b) && bytes_eqb (p_sig a) (p_sig b) && bytes_eqb (p_logid a) (p_logid b).
 
-(* tls.Marshal(ct.SignedTreeHead): what the witness signs and the verifier checks *)
+(* tls.Marshal(ct.SignedTreeHead): what the witness signs and the verifier checks.
+   SignedTreeHead.Version carries only a json tag, no tls tag: tls.Marshal gives such an Enum
+   zero bytes (observed, and compared byte for byte by the harness), so the version is NOT part
+   of the cosigned bytes; only version 0 (V1) ever gets here, parse having verified the log
+   signature, whose input refuses any other version. *)
 Definition sth_enc (p : psth) : bytes :=
-  be_enc 1 (p_version p) ++ be_enc 8 (p_size p) ++ be_enc 8 (p_time p) ++ p_root p ++ p_sig p ++ p_logid p.
+  be_enc 8 (p_size p) ++ be_enc 8 (p_time p) ++ p_root p ++ p_sig p ++ p_logid p.
 
 Definition zero_id : bytes := rep 32 x00.
 
